@@ -1,7 +1,10 @@
 //! C03: every counterexample returned by `patronus::mc::bmc` is a real execution.
 //! Same runner and case format as C02 (see c02.rs), restricted to systems that have a counterexample
 //! within the bound, each run under several solver profiles and model-diversity settings
-//! (z3 random seeds / phase selection through the shims' command line, and cvc5).
+//! (z3 random seeds / phase selection through the shims' command line, and cvc5), plus, per system,
+//! `bmc` with check_constraints = true (individual checking on z3, either mode behind the push/pop profile)
+//! and `patronus::mc::pdr` on z3 (time-limited child process): every Fail witness of every entry point goes
+//! to the extracted `check_witness`, and its recorded get-value calls to the model of `get_witness`.
 use crate::util::Args;
 
 pub fn run(args: &Args) {
